@@ -18,6 +18,14 @@ pub(crate) struct Metadata {
     pub(crate) checksum: u64,
 }
 
+/// Decode an entry header's metadata from bytes read from disk. The bytes are untrusted (a
+/// damaged or partially written header must not crash the process), so the archive is
+/// validated before it is accessed.
+pub(crate) fn decode_metadata(bytes: &[u8]) -> Result<Metadata, ()> {
+    let archived = rkyv::check_archived_root::<Metadata>(bytes).map_err(|_| ())?;
+    archived.deserialize(&mut rkyv::Infallible).map_err(|_| ())
+}
+
 #[derive(Clone, Debug)]
 pub struct Block {
     pub(crate) id: u64,
@@ -107,11 +115,7 @@ impl Block {
         let mut aligned = rkyv::AlignedVec::with_capacity(meta_len);
         aligned.extend_from_slice(&meta_buffer[2..2 + meta_len]);
 
-        // SAFETY: `aligned` contains bytes we just read from our own file format.
-        // We bounded `meta_len` to PREFIX_META_SIZE and copy into an `AlignedVec`,
-        // which satisfies alignment requirements of rkyv.
-        let archived = unsafe { rkyv::archived_root::<Metadata>(&aligned[..]) };
-        let meta: Metadata = archived.deserialize(&mut rkyv::Infallible).map_err(|_| {
+        let meta: Metadata = decode_metadata(&aligned[..]).map_err(|_| {
             std::io::Error::new(
                 std::io::ErrorKind::InvalidData,
                 "failed to deserialize metadata",
